@@ -25,7 +25,7 @@ import (
 	"verif/internal/evid"
 )
 
-var allCarriers = []string{carDirect, carDirectServer, carHTTP, carWSc2s, carWSs2c}
+var allCarriers = []string{carDirect, carDirectServer, carHTTP, carHTTPGet, carWSc2s, carWSs2c}
 
 func binom(n, k int) int64 {
 	if k > n {
@@ -93,6 +93,7 @@ func main() {
 	run.Assume("expected read-back: same method, URL.String(), header keys and ordered values (+ Content-Length when a body is present), body, status code, reason (default reason when empty), channel, payload; after the last element Read must return an error")
 	run.Assume("carrier direct: chunk reader -> bufio.Reader -> conn.Conn. carrier direct-server: chunk reader -> real serverConnReader.handleTunneling (4-byte sniff through rewindablereader) -> bufio -> conn.Conn")
 	run.Assume("carrier http-base64: real newClientTunnelHTTP over two in-memory net.Conns (GET answered with the server's canned 200), every write through the real clientTunnelHTTP.Write; the POST request + base64 text is delivered by the chunk reader; the server side repeats the first lines of handleTunneling (rewindable sniff, http.ReadRequest, isHTTPTunnel) in the accessor and then uses the real newServerHTTPTunnel/base64streamreader with the same bufio.Reader, as Server.run does. A running Server (channel pairing by X-Sessioncookie) is NOT in the path")
+	run.Assume("carrier http-get-s2c (server -> client half of the HTTP tunnel): the byte stream is the server's canned 200 head of the GET channel followed by the raw RTSP stream, read through the real newClientTunnelHTTP / clientTunnelHTTP.Read; cut position 0 is the boundary head|stream; no cut = head and stream arrive in the same read; enumerated like direct-server (every single cut, pairs and triples around the boundary and the element ends)")
 	run.Assume("HTTP tunnel deliveries with >= 2 cuts that do not cut at the POST|data boundary do not re-parse the POST request: the real newServerHTTPTunnel is given a fresh bufio.Reader at the first base64 byte (deliveries with 0 or 1 cut, 1-byte reads and cuts at the boundary go through the POST request). WebSocket deliveries with >= 1 cut reuse the upgraded connection of the previous delivery (no read past the end; instead all carrier bytes must be consumed and nothing may stay buffered); every failure is re-judged on a freshly upgraded connection")
 	run.Assume("carrier websocket: real newClientTunnelWebSocket (gorilla Dialer) and real serverConnReader.handleTunneling (wsResponseWriter, gorilla Upgrader, wsReader/wsWriter) over in-memory net.Conns with a synchronous handshake; messages = writes; the partition applies to the post-handshake byte stream in the direction under test (client->server masked, server->client unmasked)")
 	run.Assume("limits: a token strictly below the constant must be accepted, strictly above must be refused; the constant itself is only observed for the length limits because readBytesLimited counts the delimiter (header count and body size, which the statement quotes as 255 / 128 KiB, must be accepted at the constant). Consumption bound: bytes in front of the token + limit + 4096")
@@ -223,7 +224,7 @@ func main() {
 			}
 			parts := 1
 			isWS := car == carWSc2s || car == carWSs2c
-			if !isWS && car != carDirectServer {
+			if !isWS && car != carDirectServer && car != carHTTPGet {
 				var est int64
 				switch {
 				case car == carHTTP && m <= cfg.httpFull3:
